@@ -48,9 +48,14 @@ def snapshot(kw):
     """value of the caller's argument objects (to see that the reader leaves them alone)"""
     t = kw.get('message_types')
     s_ = kw.get('source_ids')
+    # one-shot iterables cannot be looked at without consuming them: not part of the snapshot
+    if t is not None and not isinstance(t, (set, frozenset, list, tuple, type)) and not hasattr(t, 'name'):
+        t = None
+    if s_ is not None and not isinstance(s_, (set, frozenset, list, tuple, int, range)) and not hasattr(s_, 'dtype'):
+        s_ = None
     return [L.range_state(kw.get('time_range')),
-            None if t is None else (repr(type(t).__name__), [int(x) if not isinstance(x, type) else x.__name__ for x in (t if isinstance(t, (set, list, tuple)) else [t])]),
-            None if s_ is None else (type(s_).__name__, sorted(s_) if isinstance(s_, (set, list, tuple)) else s_)]
+            None if t is None else (repr(type(t).__name__), [int(x) if not isinstance(x, type) else x.__name__ for x in (t if isinstance(t, (set, frozenset, list, tuple)) else [t])]),
+            None if s_ is None else (type(s_).__name__, sorted(int(x) for x in s_) if not isinstance(s_, int) else s_)]
 
 
 def run_case(case, path):
@@ -62,7 +67,7 @@ def run_case(case, path):
     try:
         r = MixedLogReader(path, **kw)
         if late is not None:
-            r.filter_in_place(None, source_ids=set(late))
+            r.filter_in_place(None, source_ids=L.srcs_arg(late, case.get('late_form')))
         live, kept = [], []
         for x in r:
             live.append(L.canon_result(x, flags))     # as seen inside the loop
@@ -82,7 +87,7 @@ def run_case(case, path):
         kw2, _ = reader_kwargs(case, [1, 1, 1, 1, 1], path)
         r = MixedLogReader(path, **kw2)
         if late is not None:
-            r.filter_in_place(None, source_ids=set(late))
+            r.filter_in_place(None, source_ids=L.srcs_arg(late, case.get('late_form')))
         out['shadow'] = [int(x[3]) for x in r]
     except Exception as e:
         out['shadow'] = type(e).__name__
